@@ -1,0 +1,34 @@
+//go:build verif
+
+// Verification hooks for the snapshot engine (build tag "verif"); see verif_on.go.
+
+package sugardb
+
+import "github.com/echovault/sugardb/internal/snapshot"
+
+// VerifSnapshotInProgress reports whether a snapshot is being taken right now.
+func (server *SugarDB) VerifSnapshotInProgress() bool {
+	return server.snapshotInProgress.Load()
+}
+
+// VerifLatestSnapshot is the time LASTSAVE reports (unix ms, 0 = no snapshot).
+func (server *SugarDB) VerifLatestSnapshot() int64 {
+	return server.latestSnapshotMilliseconds.Load()
+}
+
+// VerifTakeSnapshot takes a snapshot synchronously, on the caller's goroutine (SAVE starts the same function in a
+// goroutine of its own and replies at once).
+func (server *SugarDB) VerifTakeSnapshot() error {
+	return server.snapshotEngine.TakeSnapshot()
+}
+
+// VerifChangeCount is the snapshot engine's count of changes since the last snapshot.
+func (server *SugarDB) VerifChangeCount() uint64 {
+	return server.snapshotEngine.VerifChangeCount()
+}
+
+// VerifSetSnapshotHook installs the function called at every failpoint of the snapshot engine (see
+// internal/snapshot/verif_on.go); nil removes it.
+func VerifSetSnapshotHook(h func(point string, file string)) {
+	snapshot.VerifSetHook(h)
+}
